@@ -14,7 +14,7 @@ m.clone_target("/verif/.build/dev/t-" + sys.argv[1], m.base_of(sys.argv[1]))
 P
 flags="--no-memory-safety-checks --no-undefined-function-checks"
 pb=""
-feat=""; case "$h" in *_c2) feat="--features cap2";; esac
+feat=""; case "$h" in *_c2) feat="--features cap2";; *_c1) feat="--features cap1";; esac
 for a in "$@"; do
   [ "$a" = full ] && flags=""
   [ "$a" = playback ] && pb="-Z concrete-playback --concrete-playback=print"
